@@ -1,10 +1,273 @@
-/- C08 — property theorems (filled below). -/
-import SkNet.Model.Cut
-import SkNet.Spec.Cut
+/-
+C08 — cuts, aggregation and quality scores agree with the tree they are given.
+
+Theorems about the models `SkNet.Cut.*` / `SkNet.HMetrics.*`, which mirror sknetwork/hierarchy/postprocess.py and
+metrics.py and are tied to the code on every run by tools/harness/c08.py.
+`n = D.length + 1` is the number of leaves, `leaves n D x` the leaf list of node `x` (`Model/Dendro.lean`).
+-/
+import SkNet.Lemmas.Labels
+import SkNet.Lemmas.Sort
 
 namespace SkNet.C08
 open SkNet SkNet.Dendro SkNet.Cut
 
-theorem initCluster_length (n : Nat) : (initCluster n).length = n := by simp [initCluster]
+variable {α : Type}
+
+/-- What a cut returns, as the statement of C08 puts it: `cl` lists the clusters in label order;
+    they partition the leaves, each is non-empty and is exactly the leaf list of one node of the tree,
+    node `v` carries the label `p` of the cluster that contains it (so labels are `0 … k-1`), and
+    sizes do not increase with the label when `sort_clusters`. -/
+structure SubtreeLabelling (n : Nat) (D : Dendro α) (labels : List Nat) (sorted : Bool)
+    (cl : List (List Nat)) : Prop where
+  partition : cl.flatten.Perm (List.range n)
+  subtree : ∀ c ∈ cl, c ≠ [] ∧ ∃ x, x < n + D.length ∧ c = leaves n D x
+  length : labels.length = n
+  label : ∀ p c, cl[p]? = some c → ∀ v ∈ c, labels.getD v 0 = p
+  sorted : sorted = true → cl.Pairwise (fun a b => b.length ≤ a.length)
+
+/-- every leaf has a label below the number of clusters, and the class of label `p` is exactly cluster `p` -/
+theorem SubtreeLabelling.label_class {n : Nat} {D : Dendro α} {labels : List Nat} {s : Bool}
+    {cl : List (List Nat)} (h : SubtreeLabelling n D labels s cl) {v : Nat} (hv : v < n) :
+    labels.getD v 0 < cl.length ∧ ∀ p c, cl[p]? = some c → (labels.getD v 0 = p ↔ v ∈ c) := by
+  have hmem : v ∈ cl.flatten := h.partition.mem_iff.mpr (List.mem_range.mpr hv)
+  obtain ⟨c0, hc0, hvc0⟩ := List.mem_flatten.mp hmem
+  obtain ⟨q, hq, hqe⟩ := List.getElem_of_mem hc0
+  have hq' : cl[q]? = some c0 := by rw [List.getElem?_eq_getElem hq, hqe]
+  have hlab := h.label q c0 hq' v hvc0
+  refine ⟨by omega, ?_⟩
+  intro p c hp
+  constructor
+  · intro e
+    have : q = p := by omega
+    subst this
+    rw [hq'] at hp; cases hp; exact hvc0
+  · intro hvc; exact h.label p c hp v hvc
+
+theorem getLabels_ok_labels {D : Dendro α} {st : Dict (List Nat)} {srt retD : Bool}
+    {argsort : List Nat → List Nat} {out : CutOut α} (h : getLabels D st srt retD argsort = .ok out) :
+    assignAll 0 (orderedClusters st srt argsort) (List.replicate (D.length + 1) 0) = .ok out.labels := by
+  unfold getLabels at h
+  simp only [bind, Except.bind] at h
+  split at h
+  · cases h
+  · rename_i labels hl
+    rw [hl]
+    cases retD with
+    | false => simp only [Bool.false_eq_true, if_false, pure, Except.pure, Except.ok.injEq] at h; rw [← h]
+    | true =>
+      simp only [if_true] at h
+      split at h
+      · cases h
+      · simp only [pure, Except.pure, Except.ok.injEq] at h; rw [← h]
+
+/-- `get_labels` on a cluster dict that satisfies the loop invariant returns a subtree labelling. -/
+theorem getLabels_subtrees {D : Dendro α} {st : Dict (List Nat)} {srt retD : Bool}
+    {argsort : List Nat → List Nat} (hs : SortsDesc argsort) {out : CutOut α}
+    (hinv : CInv (D.length + 1) D st) (hne : ∀ p ∈ st, p.2 ≠ [])
+    (h : getLabels D st srt retD argsort = .ok out) :
+    SubtreeLabelling (D.length + 1) D out.labels srt (orderedClusters st srt argsort) ∧
+      (orderedClusters st srt argsort).Perm st.values := by
+  have hperm := orderedClusters_perm hs st srt
+  have hflat : (orderedClusters st srt argsort).flatten.Perm (List.range (D.length + 1)) :=
+    (List.Perm.flatten hperm).trans hinv.perm
+  have hlab := getLabels_ok_labels h
+  obtain ⟨l', h1, h2, h3, _⟩ := assignAll_spec (orderedClusters st srt argsort) 0
+    (List.replicate (D.length + 1) 0)
+    (by
+      intro c hc v hv
+      have : v ∈ (orderedClusters st srt argsort).flatten := List.mem_flatten.mpr ⟨c, hc, hv⟩
+      simpa using hflat.mem_iff.mp this)
+    (hflat.nodup_iff.mpr List.nodup_range)
+  rw [hlab] at h1
+  cases h1
+  refine ⟨⟨hflat, ?_, by simpa using h2, ?_, ?_⟩, hperm⟩
+  · intro c hc
+    have hc' : c ∈ st.values := hperm.mem_iff.mp hc
+    obtain ⟨p, hp, rfl⟩ := List.mem_map.mp hc'
+    refine ⟨hne p hp, p.1, ?_, hinv.leaves p hp⟩
+    exact hinv.bound _ (List.mem_map.mpr ⟨p, hp, rfl⟩)
+  · intro p c hp v hv
+    simpa using h3 p c hp v hv
+  · intro e; subst e; exact orderedClusters_sorted hs st
+
+theorem initCluster_nonempty (n : Nat) : ∀ p ∈ initCluster n, p.2 ≠ [] := by
+  intro p hp
+  simp only [initCluster, List.mem_map] at hp
+  obtain ⟨i, _, rfl⟩ := hp
+  simp
+
+/-- the merge loop started on the singletons ends in a dict satisfying the invariant, with non-empty clusters -/
+theorem mergeLoop_final {n : Nat} {ok : Row α → List Nat → List Nat → Bool} {D : Dendro α}
+    {st : Dict (List Nat)} (h : mergeLoop n ok 0 D (initCluster n) = .ok st) :
+    CInv n D st ∧ ∀ p ∈ st, p.2 ≠ [] := by
+  constructor
+  · have := mergeLoop_cinv n ok D [] (initCluster n) st h (cinv_init n)
+    simpa using this
+  · exact mergeLoop_all n ok (· ≠ []) (by intro r ci cj _ h1 _; simp [h1]) D 0 _ st h (initCluster_nonempty n)
+
+/-! ### cut_balanced -/
+
+theorem cutBalanced_unfold {D : Dendro α} {m : Nat} {srt retD : Bool} {argsort : List Nat → List Nat}
+    {out : CutOut α} (h : cutBalanced D m srt retD argsort = .ok out) :
+    2 ≤ m ∧ m ≤ D.length + 1 ∧ ∃ st,
+      mergeLoop (D.length + 1) (fun _ ci cj => decide (ci.length + cj.length ≤ m)) 0 D
+        (initCluster (D.length + 1)) = .ok st ∧
+      getLabels D st srt retD argsort = .ok out := by
+  unfold cutBalanced at h
+  simp only [bind, Except.bind, throw, throwThe, MonadExceptOf.throw] at h
+  split at h
+  · cases h
+  · rename_i hm
+    simp only [Bool.or_eq_true, decide_eq_true_eq, not_or, Nat.not_lt] at hm
+    split at h
+    · cases h
+    · rename_i st hst
+      exact ⟨hm.1, hm.2, st, hst, h⟩
+
+/-- **cut_balanced**: every cluster is exactly the leaf set of one subtree, the clusters partition the leaves,
+    labels are `0 … k-1` (by non-increasing size when `sort_clusters`), and no cluster is larger than
+    `max_cluster_size`.  For every dendrogram on which the function returns (it raises only for
+    `max_cluster_size` outside `2 … n`, or on a row whose two children coincide). -/
+theorem cutBalanced_subtrees_cap {D : Dendro α} {m : Nat} {srt retD : Bool} {argsort : List Nat → List Nat}
+    (hs : SortsDesc argsort) {out : CutOut α} (h : cutBalanced D m srt retD argsort = .ok out) :
+    ∃ cl, SubtreeLabelling (D.length + 1) D out.labels srt cl ∧ ∀ c ∈ cl, c.length ≤ m := by
+  obtain ⟨hm1, _, st, hloop, hlab⟩ := cutBalanced_unfold h
+  obtain ⟨hinv, hne⟩ := mergeLoop_final hloop
+  obtain ⟨hsub, hperm⟩ := getLabels_subtrees hs hinv hne hlab
+  refine ⟨_, hsub, ?_⟩
+  intro c hc
+  have hc' : c ∈ st.values := hperm.mem_iff.mp hc
+  obtain ⟨p, hp, rfl⟩ := List.mem_map.mp hc'
+  refine mergeLoop_all (D.length + 1) _ (fun c => c.length ≤ m) ?_ D 0 _ st hloop ?_ p hp
+  · intro r ci cj hok _ _
+    simpa using hok
+  · intro p hp
+    simp only [initCluster, List.mem_map] at hp
+    obtain ⟨i, _, rfl⟩ := hp
+    simp; omega
+
+/-- non-vacuity: a 4-leaf dendrogram cut with `max_cluster_size = 2` -/
+example : (cutBalanced (α := Nat) [⟨0, 1, 1, 2⟩, ⟨2, 3, 2, 2⟩, ⟨4, 5, 3, 4⟩] 2 true false argsortDesc).toOption.map (·.labels)
+    = some [0, 0, 1, 1] := by decide
+
+
+/-! ### cut_straight -/
+
+section straight
+variable [LinearOrder α]
+
+theorem cutStraight_unfold {D0 : Dendro α} {nc : Option Nat} {thr : Option α} {srt retD : Bool}
+    {argsort : List Nat → List Nat} {out : CutOut α}
+    (h : cutStraight D0 nc thr srt retD argsort = .ok out) :
+    ∃ D k cut st,
+      (D = D0 ∨ reorderDendrogram D0 = .ok D) ∧
+      effectiveK (D0.length + 1) nc thr = .ok k ∧
+      cutHeight D (D0.length + 1) k thr = .ok cut ∧
+      mergeLoop (D0.length + 1) (fun r _ _ => belowCut cut r) 0 D (initCluster (D0.length + 1)) = .ok st ∧
+      getLabels D st srt retD argsort = .ok out := by
+  unfold cutStraight at h
+  obtain ⟨D, hD, h⟩ := bind_ok h
+  obtain ⟨k, hk, h⟩ := bind_ok h
+  obtain ⟨cut, hcut, h⟩ := bind_ok h
+  obtain ⟨st, hst, h⟩ := bind_ok h
+  refine ⟨D, k, cut, st, ?_, hk, hcut, hst, h⟩
+  unfold cutInput at hD
+  split at hD
+  · exact Or.inr hD
+  · simp only [pure, Except.pure, Except.ok.injEq] at hD; exact Or.inl hD.symm
+
+omit [LinearOrder α] in
+theorem effectiveK_spec {n : Nat} {nc : Option Nat} {thr : Option α} {k : Nat}
+    (h : effectiveK n nc thr = .ok k) :
+    (thr = none → k = nc.getD 2) ∧ (nc ≠ none → 1 ≤ k ∧ k ≤ n) := by
+  unfold effectiveK at h
+  cases nc with
+  | none =>
+    simp only [pure, Except.pure, Except.ok.injEq] at h
+    refine ⟨fun e => by subst e; simpa using h.symm, fun e => absurd rfl e⟩
+  | some k' =>
+    obtain ⟨u, hu, h⟩ := bind_ok h
+    simp only [pure, Except.pure, Except.ok.injEq] at h
+    subst h
+    unfold checkNClusters at hu
+    split at hu
+    · cases hu
+    · split at hu
+      · cases hu
+      · exact ⟨fun _ => rfl, fun _ => by omega⟩
+
+/-- **cut_straight**: every cluster is exactly the leaf set of one subtree of the dendrogram that is cut
+    (the given one, or its reordering by height when `return_dendrogram` asks for it), the clusters partition
+    the leaves, labels are `0 … k-1` (by non-increasing size when `sort_clusters`), and without a threshold
+    there are **at least `n_clusters`** clusters (`n_clusters` defaults to 2).
+    For every dendrogram on which the function returns. -/
+theorem cutStraight_subtrees_count {D0 : Dendro α} {nc : Option Nat} {thr : Option α} {srt retD : Bool}
+    {argsort : List Nat → List Nat} (hs : SortsDesc argsort) {out : CutOut α}
+    (h : cutStraight D0 nc thr srt retD argsort = .ok out) :
+    ∃ D, (D = D0 ∨ reorderDendrogram D0 = .ok D) ∧
+      ∃ cl, SubtreeLabelling (D0.length + 1) D out.labels srt cl ∧ (thr = none → nc.getD 2 ≤ cl.length) := by
+  obtain ⟨D, k, cut, st, hD, hk, hcut, hloop, hlab⟩ := cutStraight_unfold h
+  have hlen : D.length = D0.length := by
+    rcases hD with e | e
+    · rw [e]
+    · exact reorderDendrogram_length e
+  rw [← hlen] at hloop hcut hk
+  obtain ⟨hinv, hne⟩ := mergeLoop_final hloop
+  obtain ⟨hsub, hperm⟩ := getLabels_subtrees hs hinv hne hlab
+  refine ⟨D, hD, _, by rw [← hlen]; exact hsub, ?_⟩
+  intro hthr
+  subst hthr
+  have hcl : (orderedClusters st srt argsort).length = st.length := by
+    rw [hperm.length_eq]; simp [Dict.values]
+  rw [hcl]
+  obtain ⟨hk1, hk2⟩ := effectiveK_spec hk
+  rw [← hk1 rfl]
+  -- the number of clusters lost is at most the number of rows below the cut
+  have hlenloop := mergeLoop_length (D.length + 1) (fun r _ _ => belowCut cut r) (belowCut cut)
+    (by intro r _ _ h; exact h) D [] (initCluster (D.length + 1)) st (by simpa using hloop) (cinv_init _)
+  have hinit : (initCluster (D.length + 1)).length = D.length + 1 := by simp [initCluster]
+  rw [hinit] at hlenloop
+  by_cases hone : k > 1
+  · simp only [cutHeight, hone, if_true] at hcut
+    split at hcut
+    · cases hcut
+    · rename_i c hc
+      simp only [Except.ok.injEq] at hcut
+      subst hcut
+      have hcount := countP_lt_sortH (D.map (·.h)) _ c hc
+      rw [List.countP_map] at hcount
+      have hkn : k ≤ D.length + 1 := by
+        cases nc with
+        | none =>
+          -- default 2: the index exists, so there is at least one row
+          have : (sortH (D.map (·.h))).length = D.length := by
+            rw [(sortH_perm _).length_eq]; simp
+          have hlt := (List.getElem?_eq_some_iff.mp hc).1
+          have := hk1 rfl
+          simp only [Option.getD_none] at this
+          omega
+        | some k' => exact (hk2 (by simp)).2
+      have hcnt : D.countP (belowCut (some c)) ≤ D.length + 1 - k := by
+        have : (belowCut (some c) : Row α → Bool) = ((fun x => decide (x < c)) ∘ fun r => r.h) := by
+          funext r; rfl
+        rw [this]; exact hcount
+      omega
+  · -- n_clusters = 1: at least one cluster since there is at least one leaf
+    have : 0 < st.length := by
+      have hp := hinv.perm.length_eq
+      simp only [List.length_range] at hp
+      rcases st with _ | ⟨p, r⟩
+      · simp [Dict.values] at hp
+      · simp
+    omega
+
+/-- non-vacuity: three clusters asked for, three returned (tied heights would return more) -/
+example : (cutStraight (α := Nat) [⟨0, 1, 1, 2⟩, ⟨2, 3, 2, 2⟩, ⟨4, 5, 3, 4⟩] (some 3) none true false argsortDesc).toOption.map (·.labels)
+    = some [0, 0, 1, 2] := by decide
+
+example : (cutStraight (α := Nat) [⟨0, 1, 1, 2⟩, ⟨2, 3, 1, 2⟩, ⟨4, 5, 1, 4⟩] (some 2) none true false argsortDesc).toOption.map (·.labels)
+    = some [0, 1, 2, 3] := by decide
+
+end straight
 
 end SkNet.C08
